@@ -117,8 +117,8 @@ Eof ==
   /\ rd' = [AtEof(rd) EXCEPT !.st = IF AtEof(rd).st = "err" THEN "err" ELSE "done"]
   /\ UNCHANGED <<file, bytes, w, pos>>
 
-Finished == rd.st \in {"done", "err"} /\ pos = Len(bytes) /\ UNCHANGED vars
-Next == Write \/ ReadChar \/ Eof \/ Finished
+Terminated == rd.st \in {"done", "err"} /\ pos = Len(bytes) /\ UNCHANGED vars
+Next == Write \/ ReadChar \/ Eof \/ Terminated
 Spec == Init /\ [][Next]_vars /\ WF_vars(Next)
 
 -----------------------------------------------------------------------------
